@@ -14,8 +14,19 @@ if go build ./... 2>&1 | tail -3 | grep -q .; then echo "$name: BUILD FAILS"; ex
 suite=$(go test -vet=off -count=1 -timeout 25m ./... 2>&1)
 if echo "$suite" | grep -q "^FAIL\|^--- FAIL\|panic:"; then suite_ok=false; else suite_ok=true; fi
 cd "$mdir"
-with=$(sh ./run_demo.sh with 2>&1); with_code=$?
-without=$(sh ./run_demo.sh without 2>&1); without_code=$?
+if grep -q "worktree add" run_demo.sh; then
+  # self-contained demo script: creates its own worktree, argument with|without
+  with=$(sh ./run_demo.sh with 2>&1); with_code=$?
+  without=$(sh ./run_demo.sh without 2>&1); without_code=$?
+else
+  # demo script meant to be run inside a worktree that holds the demo test
+  pkg=$(grep -o '\./[a-zA-Z0-9_/]*/*' run_demo.sh | grep -v '^\./run_demo' | tail -1); pkg=${pkg#./}; pkg=${pkg%/}
+  [ -z "$pkg" ] && pkg=$(python3 -c "import json;print(json.load(open('meta.json')).get('demo_package','pwr'))")
+  cp "$mdir"/zz_demo*_test.go "$wt/$pkg/" 2>/dev/null
+  with=$(cd "$wt" && sh "$mdir/run_demo.sh" 2>&1); with_code=$?
+  (cd "$wt" && git apply -R "$mdir/patch.diff")
+  without=$(cd "$wt" && sh "$mdir/run_demo.sh" 2>&1); without_code=$?
+fi
 wf=false; echo "$with" | grep -q "FAIL\|panic:\|DATA RACE\|exit status" && wf=true; [ $with_code -ne 0 ] && wf=true
 wo=true; echo "$without" | grep -q "FAIL\|panic:\|DATA RACE" && wo=false; [ $without_code -ne 0 ] && wo=false
 echo "$name: suite_passes_with_change=$suite_ok demo_fails_with_change=$wf demo_passes_without_change=$wo"
